@@ -26,6 +26,7 @@ def o10_5_version_builder(mir, tier):
         ('compaction replaces two level-1 files by one and deletes a level-0 file', {0: 1, 1: 2}, [(0, 0), (1, 0), (1, 1)], [(1, 1)]),
         ('trivial move: the same file is deleted at level 1 and added at level 2', {1: 2, 2: 1}, [(1, 0)], 'move'),
         ('two added files around a surviving file', {2: 1}, [], [(2, 2)]),
+        ('compaction into the deepest level: a level-5 file is deleted, its output is added at level 6 next to a survivor', {5: 1, 6: 1}, [(5, 0)], [(6, 1)]),
     ]
     if tier == 'thorough':
         scen += [('compaction output of two files replaces one file between two survivors', {1: 3}, [(1, 1)], [(1, 2)]),
